@@ -49,7 +49,7 @@ Next ==
      \/ pc \in {"presence", "alloc_task"}
           /\ (IsAbsenceStep(opts, st.time) \/ k = Len(AllocOrder(cfg, opts, b)))
           /\ Go("allocated", st) /\ UNCHANGED <<lg, b, k>>
-     \/ pc = "allocated" /\ Go("started", StartPhaseF(cfg, st)) /\ UNCHANGED <<lg, b, k>>
+     \/ pc = "allocated" /\ Go("started", StartPhaseF(cfg, opts, st)) /\ UNCHANGED <<lg, b, k>>
      \/ pc = "started" /\ Go("cost", st) /\ UNCHANGED <<lg, b, k>>
      \/ pc = "cost" /\ Go("performed", PerformF(cfg, opts, st)) /\ UNCHANGED <<lg, b, k>>
      \/ pc = "performed" /\ Go("recorded", RecordF(cfg, opts, st))
@@ -57,7 +57,6 @@ Next ==
 
 Spec == Init /\ [][Next]_vars /\ WF_vars(Next)
 
-AllTrue(cl) == \A i \in DOMAIN cl: cl[i][2]
 AtEnd == pc = "returned"
 
 \* ---- the step machine agrees with its own big-step composition (sanity of the spec)
@@ -105,9 +104,31 @@ Prop_C14 == [][Act_C14]_vars
 \* ---- C09: independence of the visiting order of the internal task sets ---------
 \* every phase that iterates a set gives the same result for every rank permutation
 Reranked(r) == [cfg EXCEPT !.tasks = [t \in DOMAIN cfg.tasks |-> [cfg.tasks[t] EXCEPT !.rank = r[t] - 1]]]
+\* PERT values are not part of the logs/times/costs/status the property speaks of; for mixed
+\* dependency kinds ties in the forward pass make eft (hence cpl, lst, lft) depend on the order.
+NoPert(s) == [s EXCEPT !.est = <<>>, !.eft = <<>>, !.lst = <<>>, !.lft = <<>>, !.cpl = 0]
 Inv_C09 ==
   \A r \in Perms(Len(cfg.tasks)):
      LET c2 == Reranked(r)
-     IN /\ (pc \in {"init", "recorded"} => UpdateF(c2, Prev) = UpdateF(cfg, Prev))
-        /\ (pc = "allocated" => StartPhaseF(c2, st) = StartPhaseF(cfg, st))
+     IN /\ (pc \in {"init", "recorded"} => NoPert(UpdateF(c2, Prev)) = NoPert(UpdateF(cfg, Prev)))
+        /\ (pc = "allocated" => StartPhaseF(c2, opts, st) = StartPhaseF(cfg, opts, st))
+        \* the whole run: same logs, time, costs, status for every visiting order
+        /\ (pc = "returned" => SimulateF(c2, opts).lg = lg)
+
+\* ---- C10: deleting the absence steps gives the absence-free run ---------------------------
+C10_Scope ==
+  /\ \A w \in Workers(cfg): cfg.workers[w].abs = <<>>
+  /\ \A f \in Facs(cfg): cfg.facs[f].abs = <<>>
+  /\ \A t \in Tasks(cfg): ~(cfg.tasks[t].auto /\ cfg.tasks[t].comp # 0)
+  /\ (opts.autoAbs => \A t \in Tasks(cfg): ~cfg.tasks[t].auto)
+Inv_C10H ==
+  pc = "returned" /\ C10_Scope /\ st.status = "SUCCESS" =>
+     LET free == SimulateF(cfg, [opts EXCEPT !.absL = <<>>])
+         cut  == RemoveAbsenceF(lg)
+     IN free.st.status = "SUCCESS" =>
+          [cut EXCEPT !.mode = "x", !.status = "x"] = [free.lg EXCEPT !.mode = "x", !.status = "x"]
+
+\* ---- C15: re-entering the loop at the same time changes nothing --------------------------
+\* (resume repeats the update phase on the state the paused run left behind)
+Inv_C15 == pc = "updated" => UpdateF(cfg, st) = st
 =============================================================================
